@@ -8,6 +8,9 @@ VERIF = os.path.dirname(os.path.dirname(os.path.abspath(__file__)))
 SEEDED = os.path.join(VERIF, "seeded")
 
 OVERRIDE_STATUS = {
+    "C18-9": ("superseded", "neutralised by repo fix fa1612c (commitDirArtifact refuses a link at the path of the directory it is asked to commit): the change made a recommit "
+                            "treat a recorded sub-directory that is now a link as a directory and descend into it; the descent now ends at the refusal, and the author's demonstration "
+                            "passes with the change on the current tree (checked by hand after the final re-evaluation). Caught with a concrete input before the repair. Kept for the record, not counted."),
     "C18-7": ("superseded", "neutralised by repo fix d539c28 (PathForChecksum accepts letters and digits only): the change deletes the cache object of a mismatching copy, "
                             "which escaped the cache only through a recorded checksum that is a path; with such checksums rejected the author's demonstration passes with and "
                             "without the change. The hostile-checksum stream that exposed the underlying defect of the pinned tree was written because of this change. Kept for the record, not counted."),
@@ -95,7 +98,8 @@ def main():
                 "Regenerate this file with `tools/seeded_summary.py` after `tools/mutant_eval.py <dir with the agents' output>` (`MUT_OFFSET=2|4|6|8|10` for rounds 2|3|4|5|6;\n"
                 "`MUT_CHECK_ONLY=1` re-runs only the check for changes validated before). A MISSED entry is a change the quick tier does not detect: C15-7 adds a new\n"
                 "configuration field (`copy: true`) whose effect exists only when that field is set — a check cannot know options that do not exist in the tree it\n"
-                "was written for (boolean FLAGS are discovered from the help texts, configuration fields are not).\n\n"
+                "was written for (boolean FLAGS are discovered from the help texts, configuration fields are not); C01-12 needs two tracked files that are hard links\n"
+                "of one another (the model has no inode identity, the generators create no hard links).\n\n"
                 "| id | status | change | quick check (seed 1) |\n|---|---|---|---|\n")
         for d, st, title, how, line in rows:
             f.write("| %s | %s | %s | %s |\n" % (d, st, title.replace("|", "/"), how))
